@@ -180,6 +180,9 @@ class Module(object):
         if name in self.imports:
             mod, orig = self.imports[name]
             if mod and mod.startswith(PKG):
+                # `from package import submodule`
+                if self.index.module(mod + '.' + orig) is not None:
+                    return Sym(mod + '.' + orig, '<module>')
                 m = self.index.module(mod)
                 if m is not None:
                     return m.fold_name(orig)
@@ -386,6 +389,12 @@ class Folder(object):
                 return len(args[0])
         if isinstance(func, Sym):
             return CallTerm(func, args, kwargs, node)
+        if isinstance(func, CallTerm) and func.func.name == 'partial' and \
+                func.args and isinstance(func.args[0], Sym):
+            kw = dict(func.kwargs)
+            kw.update(kwargs)
+            return CallTerm(func.args[0], list(func.args[1:]) + args, kw,
+                            node)
         raise Unfoldable('call of non-symbol')
 
     def f_Subscript(self, node):
